@@ -1,13 +1,140 @@
 """C12 -- message ids unique and increasing per topic (spec: Guid, GuidTrace)."""
 import json
 import os
+import re
 from vlib import Inconclusive, log
 
 META = {
     "technique": "TLC exhaustive check of Guid.tla; every NewGUID transition of the bounded model replayed through the real "
-                 "generator by state injection; hook traces of full-speed concurrent calls validated against GuidTrace.tla",
+                 "generator by state injection; hook traces of full-speed concurrent calls validated against GuidTrace.tla; "
+                 "end to end: TLC check of TopicIds.tla (concurrent publish commands drawing ids from one topic), and "
+                 "Begin/End + consumed-id traces of concurrent TCP PUB/DPUB/MPUB and HTTP /pub, /mpub publishers against "
+                 "a real nsqd (MPUBs around the 4096-per-tick boundary, node ids 0/1/odd/even/1023, injected "
+                 "sequence-nearly-exhausted and clock-behind generator states) validated against TopicIdsTrace.tla "
+                 "plus a Go-side ledger over every id",
     "design_ref": "5/C12",
 }
+
+
+def ids_selftest(ctx, trace):
+    """Binding self-test: one id of a recorded execution is made equal to another one; TopicIdsTrace must say no.
+    The pair is chosen so that only the Unique clause can object: a one-message command B that was open when a
+    bigger command A ended gets A's last id, which is above B's floor."""
+    seg, hit = [], None
+    with open(trace) as f:
+        for line in f:
+            e = json.loads(line)
+            if e["ev"] == "Reset":
+                if hit is not None:
+                    break
+                seg, done, floor, ends = [], [0, 0, 0], {}, []
+            seg.append(e)
+            if e["ev"] == "Begin":
+                floor[e["c"]] = (done, len(seg) - 1)
+            elif e["ev"] == "End":
+                fl, bpos = floor.pop(e["c"])
+                if hit is None and len(e["ids"]) == 1:
+                    # an earlier End A (position > B's Begin) with at least 2 ids whose last id is above B's floor
+                    for apos, aid in reversed(ends):
+                        if apos < bpos:
+                            break
+                        if aid > fl and len(seg[apos]["ids"]) > 1:
+                            hit = (len(seg) - 1, apos)
+                            break
+                if hit is not None and hit[0] == len(seg) - 1:
+                    e["ids"] = [list(seg[hit[1]]["ids"][-1])]
+                    break
+                done = max(done, e["ids"][-1])
+                ends.append((len(seg) - 1, e["ids"][-1]))
+            if hit is None and len(seg) > 40000:
+                break
+    if hit is None:
+        # no such pair among the recorded commands: duplicate an id anyway (whatever clause objects)
+        last = None
+        for i, e in enumerate(seg):
+            if e["ev"] == "End":
+                if last is not None:
+                    e["ids"] = [list(seg[last]["ids"][-1])] + e["ids"][1:]
+                    hit = (i, last)
+                    seg = seg[:i + 1]
+                    break
+                last = i
+    if hit is None:
+        raise Inconclusive("self-test: the recorded trace has no two completed commands to corrupt")
+    bad = os.path.join(ctx.scratch, "ids-corrupt.ndjson")
+    with open(bad, "w") as f:
+        for e in seg:
+            f.write(json.dumps(e) + "\n")
+    r = ctx.tlc("TopicIdsTrace", "TopicIdsTrace.cfg", workers=1, timeout=600, jvm=["-Xss512m"],
+                files={bad: "trace.ndjson"}, record=False, label="ids-selftest", private=True)
+    if r.ok or "TRACE_REJECTED" not in r.out:
+        raise Inconclusive("self-test: a recorded trace in which command %d got an id of command %d is accepted by "
+                           "TopicIdsTrace:\n%s" % (seg[hit[0]]["c"], seg[hit[1]]["c"], r.out[-1500:]))
+    m = re.search(r'"Unique",\s*(<<\s*"position".*?>>\s*>>|"ok")', r.out, re.S)
+    ctx.notes["ids_selftest"] = "corrupted trace (command %d given the last id of command %d) rejected at event %d; Unique clause: %s" % (
+        seg[hit[0]]["c"], seg[hit[1]]["c"], hit[0] + 1, re.sub(r"\s+", "", m.group(1)) if m else "?")
+
+
+def publish_paths(ctx):
+    """C12 bound to the publish paths (Topic.GenerateID via PUB/DPUB/MPUB, /pub, /mpub)."""
+    quick = ctx.quick
+    # the design: concurrent commands drawing ids from one source; Unique, BatchIncreasing, RealTimeOrder;
+    # every End of the model passes the predicate the trace validation applies (EndRefinesObs)
+    ctx.model_check("TopicIdsMC", "TopicIds_mc.cfg" if quick else "TopicIds_thorough.cfg", timeout=1800)
+    # the state pruning of the trace validation loses nothing, also for a broken id source
+    ctx.model_check("TopicIdsMC", "TopicIds_prune.cfg" if quick else "TopicIds_prune_thorough.cfg", timeout=600)
+    # vacuity guard: with an id source that may reuse ids TLC must find the violation
+    r = ctx.tlc("TopicIdsMC", "TopicIds_reuse.cfg", timeout=300, record=False, label="reuse")
+    if r.violated is None:
+        raise Inconclusive("TopicIds with Reuse=TRUE: TLC reports no violation (the properties are vacuous):\n" + r.out[-1500:])
+    ctx.notes["topicids_broken_source"] = "Reuse=TRUE: TLC reports %s violated" % r.violated
+
+    trace = os.path.join(ctx.scratch, "ids.ndjson")
+    rep = os.path.join(ctx.scratch, "ids.json")
+    args = ["--seed", ctx.seed, "--out", trace, "--report", rep, "--workdir", ctx.scratch]
+    if quick:
+        args += ["--runs", 6, "--max-pubs", 6, "--large", 6, "--small", 250, "--tlc-ids", 30000]
+    else:
+        args += ["--runs", 40, "--max-pubs", 8, "--large", 12, "--small", 400, "--tight-cap", 8000, "--tlc-ids", 80000]
+    rc, out, err = ctx.run_harness(args, timeout=3000, name="ids")
+    if not os.path.exists(rep):
+        raise Inconclusive("ids harness (rc %s): %s%s" % (rc, out[-1500:], err[-1500:]))
+    R = json.load(open(rep))
+    ctx.cov["evaluations"] += R["ids"]
+    ctx.cov["distinct_nontrivial"] += R["distinct_shapes"]
+    ctx.notes["publish_paths"] = {k: R[k] for k in (
+        "runs", "nodes", "commands", "large_mpubs", "large_sizes", "ids", "exhausted_ticks", "max_ids_per_tick",
+        "nudges", "nudged_runs", "tainted_runs", "unacked", "two_topic_runs", "cross_topic_equal_ids",
+        "consumer_error_frames", "traces", "trace_events", "trace_ids", "traces_windowed", "wall_ms")}
+    log("ids harness: %d runs, %d ids, %d large MPUBs, %d exhausted ticks, %d nudges, %.1fs" % (
+        R["runs"], R["ids"], R["large_mpubs"], R["exhausted_ticks"], sum(R["nudges"].values()), R["wall_ms"] / 1000.0))
+    for s in (R["samples"] or [])[:3]:
+        ctx.sample({"publish_command": s})
+    # the harness's own ledger over ALL ids it observed: one violation per kind
+    by_key = {}
+    for v in R["violations"] or []:
+        by_key.setdefault(v["key"], []).append(v)
+    for key, vs in sorted(by_key.items()):
+        if key == "node-field":
+            # how an id encodes the node is the code's business, not the property's: reported as drift only
+            ctx.drift("publish paths: %s (%d cases)" % (vs[0]["what"], R["violation_counts"][key]))
+            continue
+        ctx.violation("publish paths, ledger over the ids the real nsqd handed out: %s (%d cases of '%s')" % (
+            vs[0]["what"], R["violation_counts"][key], key),
+            ctx.save_replay("ids-" + key, {"key": key, "cases": vs, "count": R["violation_counts"][key],
+                                           "harness": "cmd/ids " + " ".join(str(a) for a in args[:2] + args[8:])}),
+            key="ids:" + key)
+    # the recorded executions against the property-level spec
+    accepted = False
+    if R["traces"] > 0 and R["trace_events"] > R["traces"]:
+        accepted = ctx.validate_trace("TopicIdsTrace", "TopicIdsTrace.cfg", trace, R["traces"], "topic-ids", timeout=3000,
+                                      key="ids:trace")
+    if accepted:
+        ids_selftest(ctx, trace)
+    if R.get("inconclusive"):
+        raise Inconclusive("ids harness: " + R["inconclusive"])
+    if R["large_mpubs"] == 0 or not accepted and not ctx.violations:
+        raise Inconclusive("ids harness produced no usable execution (large MPUBs %d, traces %d)" % (R["large_mpubs"], R["traces"]))
 
 
 def run(ctx):
@@ -69,12 +196,29 @@ def run(ctx):
         ctx.sample({"trace_event": s})
     for v in T["violations"] or []:
         ctx.violation("ledger: " + v, ctx.save_replay("guid-ledger", {"violation": v}))
+    for v in (T.get("drift") or [])[:5]:
+        ctx.drift("generator ledger: " + v)
     ctx.validate_trace("GuidAbsTrace", "GuidAbsTrace.cfg", trace, T["traces"], "guid", timeout=1800)
     ctx.validate_trace("GuidTrace", "GuidTrace.cfg", trace, T["traces"], "guid-shape", timeout=1800, level="shape")
-    ctx.cov["rule"] = ("evaluations = real NewGUID calls (replayed TLC edges + full-speed concurrent calls); a case is "
-                       "distinct by (result class, clock-vs-lastTs offset, sequence before/after)")
+    # 4. binding C: the publish paths of a real nsqd, end to end
+    publish_paths(ctx)
+    ctx.cov["rule"] = ("evaluations = real NewGUID calls (replayed TLC edges + full-speed concurrent calls) + ids handed "
+                       "out to messages published through the real daemon; a generator case is distinct by (result class, "
+                       "clock-vs-lastTs offset, sequence before/after), a publish command by (kind, size class, node-id "
+                       "class, ticks spanned, whether it met an exhausted tick, whether it opened a tick)")
     ctx.assumptions += [
         "ids compared as (ts, node, seq) triples; the 64-bit packing is decomposed by the harness",
         "a clock step back is emulated by injecting a future lastTimestamp (time.Now cannot be overridden)",
         "sequence width 2 bits in the exhaustive model, 12 bits in trace validation",
+        "publish paths: Begin is recorded just before the request is written and End after the OK/200 was read (one "
+        "mutex), so recorded intervals contain the real ones; ids are read off first deliveries (attempts = 1) to one "
+        "consumer per topic; ids compare only within one topic of one daemon lifetime",
+        "publish paths: TLC gets whole commands of a window of at most --tlc-ids ids per trace (put on the first command "
+        "the ledger objected to, else on a large MPUB); the Go-side ledger checks every id of every run",
+        "publish paths: with the verif build tag the daemon hands out at most ~2500 ids per tick on this machine, so "
+        "sequence exhaustion and a clock behind the generator are provoked by injecting FUTURE generator states into "
+        "the live topic (never a state at or below an id already handed out; a late injection discards the run); "
+        "two of three runs are nudged, the others run undisturbed",
+        "an id whose node field differs from the configured node-id is reported as SHAPE-DRIFT only (how an id encodes "
+        "the node is the code's business; the property speaks of one topic of one nsqd)",
     ]
